@@ -99,6 +99,13 @@ func (e *Engine) freshStr(s *State, ln Term, byteAt func(j Term) Term) StrV {
 
 // strEq decides a == b.
 func (e *Engine) strEq(s *State, a, b StrV) Term {
+	empty := ""
+	if a.Const == nil && a.T.S == "str!empty" { // the empty string that went through the heap is still the literal ""
+		a = StrV{Const: &empty}
+	}
+	if b.Const == nil && b.T.S == "str!empty" {
+		b = StrV{Const: &empty}
+	}
 	if a.Const != nil && b.Const != nil {
 		return boolT(*a.Const == *b.Const)
 	}
